@@ -199,6 +199,8 @@ func (w *worker[T, JobType]) releaseWaiters(processing uint32) {
 // instant accounted for either by its queue's length or by curProcessing. It fails when the pool
 // is saturated or when the worker stopped running in the meantime.
 func (w *worker[T, JobType]) reserve() bool {
+	var taken uint32
+
 	for {
 		c := w.curProcessing.Load()
 
@@ -207,13 +209,17 @@ func (w *worker[T, JobType]) reserve() bool {
 		}
 
 		if w.curProcessing.CompareAndSwap(c, c+1) {
+			taken = c + 1
 			break
 		}
 	}
 
 	// Pause/Stop store the status first and look at curProcessing afterwards;
 	// looking at the status after taking the slot makes one of the two sides see the other.
-	if s := w.status.Load(); s == paused || s == stopped {
+	// The limit is looked at again for the same reason: the values compared above may be old
+	// (the event loop of a previous run can sit between its loads and its CAS across a
+	// TunePool and a Restart, and curProcessing can have come back to the value it loaded).
+	if s := w.status.Load(); s == paused || s == stopped || taken > w.concurrency.Load() {
 		w.release()
 		return false
 	}
